@@ -209,6 +209,25 @@ func c12Frames(r *rand.Rand, i int, cat []c11Class) []c12Frame {
 			m := c11GenMsg(r, "CLOSE", true)
 			t, _ := text(m)
 			out = append(out, c12Frame{binary: true, data: []byte(t), class: "binary"})
+		case c < 84: // an invalid field under a correct id and a genuine signature: only the field check can refuse it
+			e := &mocrelay.Event{Kind: 1, CreatedAt: r.Int64N(1 << 31), Content: "signed but invalid " + vk.HostileString(r, 6), Tags: []mocrelay.Tag{{"t", "x"}}}
+			variant := r.IntN(4)
+			if variant == 0 {
+				e.Kind = vk.Pick(r, []int64{65536, 70000, -1, 1 << 40})
+			}
+			vk.Sign(vk.KeyN(r.IntN(8)), e)
+			switch variant {
+			case 1:
+				e.ID = strings.ToUpper(e.ID)
+			case 2:
+				e.Pubkey = strings.ToUpper(e.Pubkey)
+			case 3:
+				e.Sig = strings.ToUpper(e.Sig)
+			}
+			if strings.ToLower(e.ID) == e.ID && strings.ToLower(e.Pubkey) == e.Pubkey && strings.ToLower(e.Sig) == e.Sig && variant != 0 {
+				continue // an all-digit hex string has no upper-case form
+			}
+			out = append(out, c12Frame{data: []byte(evText(e)), class: "invalid-field/properly-signed/" + []string{"kind-range", "id-upper-case", "pubkey-upper-case", "sig-upper-case"}[variant], refID: e.ID})
 		case c < 86: // well-formed event that nobody signed
 			e := vk.Seal(&mocrelay.Event{Kind: 1, Pubkey: vk.KeyN(0).Pub, CreatedAt: r.Int64N(1 << 31), Content: "forged", Tags: []mocrelay.Tag{}})
 			out = append(out, c12Frame{data: []byte(evText(e)), class: "forged/unsigned", refID: e.ID})
@@ -249,7 +268,7 @@ func c12Frames(r *rand.Rand, i int, cat []c11Class) []c12Frame {
 
 func TestVerif_C12(t *testing.T) {
 	rep := vk.NewReport(t, "C12", "exploration")
-	rep.Rule = "real WebSocket connections (coder/websocket client against httptest + NewRelay(recordingHandler)); per connection a pipelined seeded sequence of 20-200 frames: valid messages of all five types (whitespace/escape styles), genuine hostile-content events, every catalogue corruption class of C11, non-messages, invalid UTF-8, binary frames, unsigned / altered-after-admission / wrong-canonicalisation / unparsable-key events; the recording handler answers each admitted message with 0-2 marked server messages of all seven types carrying hostile strings; oracle: handler log = the valid authentic frames, once each, in order and equal to what the frames denote; #rejections at the client = #other frames (NOTICE or rejecting OK/CLOSED naming the offender); after the last frame a sentinel REQ still reaches the handler; every handler emission arrives as one text frame that decodes to the emitted value, in order; non-trivial = a connection with at least one rejected and one admitted frame; distinct = distinct frame-class sequences"
+	rep.Rule = "real WebSocket connections (coder/websocket client against httptest + NewRelay(recordingHandler)); per connection a pipelined seeded sequence of 20-200 frames: valid messages of all five types (whitespace/escape styles), genuine hostile-content events, every catalogue corruption class of C11, non-messages, invalid UTF-8, binary frames, properly signed events with an invalid field (kind out of range, upper-case hex), unsigned / altered-after-admission / wrong-canonicalisation / unparsable-key events; the recording handler answers each admitted message with 0-2 marked server messages of all seven types carrying hostile strings; oracle: handler log = the valid authentic frames, once each, in order and equal to what the frames denote; #rejections at the client = #other frames (NOTICE or rejecting OK/CLOSED naming the offender); after the last frame a sentinel REQ still reaches the handler; every handler emission arrives as one text frame that decodes to the emitted value, in order; non-trivial = a connection with at least one rejected and one admitted frame; distinct = distinct frame-class sequences"
 	defer rep.Finish()
 	cat := c11Catalogue()
 	nConn := vk.N(400, 6000)
